@@ -38,6 +38,16 @@ class DispatchingRequestHandler(BaseHTTPRequestHandler):
     def log_request(self, code='-', size='-'):
         pass  # suppress printing of every request to stderr
 
+    def send_response(self, code, message=None):
+        """Send the status line; the reason phrase is reduced to one line of latin-1 text.
+
+        Reason phrases are built from exception texts and path elements. A line break in them would end the status line
+        (the rest would be read as header lines), a character outside latin-1 would raise while the status line is written.
+        """
+        if message is not None:
+            message = ' '.join(str(message).split()).encode('latin-1', 'replace').decode('latin-1')[:200]
+        super().send_response(code, message)
+
     def get_first_path_element(self):
         parsed_path = urlparse(self.path)
         path_elements = parsed_path.path.split('/')
